@@ -319,7 +319,8 @@ def run(run):
     run.rule = (
         "E2 + R3 gradient evaluator: kind {linear, radial} x coordinates {defaults, numbers, percentages} x gradientUnits 2 x gradientTransform {none, translate, scale.translate, rotate, matrix} "
         "x spreadMethod x href {none, template supplies attributes, template supplies stops, chain of two} x radial focus {none, fx, fx+fy, fr, percentages} x shape {rect, circle, path} x "
-        "shape transform chain {none, translate, rotate.scale, group translate + own matrix} (quick: reduced spread/href/focus/shape alphabets). Oracle: at every lattice point strictly inside "
+        "shape transform chain {none, translate, rotate.scale, group translate + own matrix, mirror, flip.scale} (quick: reduced spread/href/focus/shape alphabets); ONE gradient shared by two shapes "
+        "(3 shape pairs incl. coincident geometry) x own transforms {none, translate, scale, rotate, matrix, mirror}^2 x {no group, group around the second, group around both, second shape a <use> of the first}. Oracle: at every lattice point strictly inside "
         "the shape in both renderings the raw gradient parameter agrees within 1e-3 and the colour within 2.5/255; output gradients self-contained (R4 with own stops). "
         "Non-trivial = compared points span >= 0.3 of the gradient parameter range and >= 30 points compared."
     )
